@@ -454,6 +454,9 @@ class JSON(Term):
             return self._get_list_sql(value, **kwargs)
         if isinstance(value, str):
             return self._get_str_sql(value, **kwargs)
+        if value is None or isinstance(value, bool):
+            # JSON spells these null / true / false
+            return json.dumps(value)
         return str(value)
 
     def _get_dict_sql(self, value: dict, **kwargs: Any) -> str:
@@ -472,10 +475,14 @@ class JSON(Term):
 
     @staticmethod
     def _get_str_sql(value: str, quote_char: str = '"', **kwargs: Any) -> str:
+        if quote_char == '"':
+            # a JSON string: escape quotes, backslashes and control characters
+            return json.dumps(value, ensure_ascii=False)
         return format_quotes(value, quote_char)
 
     def get_sql(self, ctx: SqlContext) -> str:
-        sql = format_quotes(self._recursive_get_sql(self.value), ctx.secondary_quote_char)
+        # the JSON document is inlined as a string literal and must be escaped like one
+        sql = ValueWrapper.get_formatted_value(self._recursive_get_sql(self.value), ctx)
         return format_alias_sql(sql, self.alias, ctx)
 
     def get_json_value(self, key_or_index: str | int) -> "BasicCriterion":
